@@ -105,14 +105,6 @@ theorem agree_deser_ser (lay : LNode) (hl : lay.Ok) (a : SNode) (ha : ConformsS 
 
 /-! ### the machine of the uninterrupted run -/
 
-/-- the machine after `j` samples of the uninterrupted run (`none`: an evaluation error on the way) -/
-def machineAfter (fuel : Nat) (P : Prog) (sr : UInt64) (inputs : Nat → List UInt64) : Nat → Machine → Option Machine
-  | 0, m => some m
-  | j + 1, m =>
-    match Machine.step fuel P sr m (inputs m.t) with
-    | .error _ => none
-    | .ok (_, m') => machineAfter fuel P sr inputs j m'
-
 /-- swapping (any number of times) to the running program keeps a machine that agrees with the uninterrupted one -/
 theorem swapMany_same (fuel : Nat) (sr : UInt64) (P : Prog) (lay : LNode) (hpub : publishFn P P.dsp = some lay)
     (hl : lay.Ok) (mi : Machine) (hinit : Machine.init fuel P sr = .ok mi) (B : Machine)
